@@ -53,6 +53,32 @@ class ScriptedRng:
         self.lines.append(f"RI {high} {x}"); return x
 
 
+# AddDelete.add iterates a Python set of the chosen nodes; that order is an input of the model (it checks that it is a
+# permutation of the nodes it chose itself): observe it at Process.addEdge and write it to the random stream afterwards
+from epydemic import AddDelete, Process as _Process
+CURRENT = {}
+_ad_add = AddDelete.add
+_p_addEdge = _Process.addEdge
+
+
+def _vp_add(self, t, e):
+    self._vp_js = []
+    _ad_add(self, t, e)
+    if CURRENT.get('sr') is not None: CURRENT['sr'].lines.append("RP " + ' '.join(map(str, self._vp_js)))
+    self._vp_js = None
+
+
+def _vp_addEdge(self, n, m, **kw):
+    js = getattr(self, '_vp_js', None)
+    if js is not None: js.append(m)
+    return _p_addEdge(self, n, m, **kw)
+
+
+_vp_add.__qualname__ = 'AddDelete.add'
+if not getattr(AddDelete.add, '_vp', False):
+    _vp_add._vp = True; AddDelete.add = _vp_add; _Process.addEdge = _vp_addEdge
+
+
 class Gen(NetworkGenerator):
     def __init__(self, nodes, edges):
         super().__init__(); self._nodes = nodes; self._edges = edges
@@ -77,6 +103,7 @@ ACTS = {
     'SIS_FixedRecovery.infect': ['CCL INFECTED', 'OCC', 'HIT', 'POSTL T SIS.recover'],
     'Opinion.affect': ['CCL SPREADER', 'OCC', 'HIT'], 'Opinion.stifle': ['CCL STIFLER'],
     'Monitor.observe': ['OBSERVE'],
+    'AddDelete.add': ['ADADD'], 'AddDelete.delete': ['ADDEL'],
 }
 EDGE_HANDLERS = {'SIR.infect', 'SIS.infect', 'SEIR.infect', 'SEIR.infectAsymptomatic', 'SIR_FixedRecovery.infect',
                  'SIS_FixedRecovery.infect', 'Opinion.affect', 'Opinion.stifle', 'SIvR.infect'}
@@ -249,12 +276,21 @@ class Extract:
                 tq = w[2]; tcls = {'SIR.remove': 'remove', 'SIS.recover': 'recover'}[tq]
                 acts.append(f"POSTL {fb(p._tInfected)} {self.hid(getattr(p, tcls))}")
             elif w[0] == 'OBSERVE': acts.append("OBSERVE")
+            elif w[0] == 'ADADD': acts.append(f"ADADD {self.lidx[id(p.locus(AddDelete.NODES))]} {p._c} {self.ad_mode(p)}")
+            elif w[0] == 'ADDEL': acts.append(f"ADDEL {self.lidx[id(p.locus(AddDelete.NODES))]} {self.ad_mode(p)}")
             else: raise ValueError(a)
         if rep:
             acts.append(f"POSTE {fb(cells['dt'])} {self.hnames.index(key)}")
         kind = 'E' if qn in EDGE_HANDLERS else ('X' if qn.startswith('Monitor.') else 'N')
         self.hkind[key] = kind
         return f"HANDLER {key} {kind} " + ' ; '.join(acts)
+
+    def ad_mode(self, p):
+        if isinstance(p, CompartmentedModel): q = p; kind = 'inherit'
+        elif getattr(p, 'VP_MODE', None): q = p.container()[p.DISEASE]; kind = 'seq' if p.VP_MODE == 'seq' else 'inherit'
+        else: return 'alone'
+        ci = self.cidx[id(q)]
+        return f"{kind} {self.inst[id(q)]} {ci[q.SUSCEPTIBLE]} {ci[q.REMOVED]}"
 
     def register_script(self, sp):
         """scripted process: all its handlers, in order"""
@@ -368,7 +404,7 @@ def run_case(case):
     """case: dict(build=callable -> top process, dyn='sto'|'syn', nodes, edges, maxT, seed, params, specials, ops)
     returns (input lines, expected lines, info)"""
     sr = ScriptedRng(case['seed'], case.get('specials', ()), case.get('pspecial', 0.0))
-    vrepo.patch_rng(sr)
+    vrepo.patch_rng(sr); CURRENT['sr'] = sr
     top = case['build']()
     top.setMaximumTime(case['maxT'])
     Dyn = StochasticDynamics if case['dyn'] == 'sto' else SynchronousDynamics
@@ -429,7 +465,7 @@ def run_case(case):
                                        {q.EXPOSED} if hasattr(q, 'EXPOSED') else {q.SPREADER} if hasattr(q, 'SPREADER') else set())}
                               for q in st['ex'].cms}
             for f in case.get('oracles', ()):
-                if getattr(f, '__name__', '') == 'oracle_diagram': f(self, st['ex'], dict(posted=True), 0.0, None, None, None)
+                if getattr(f, '__name__', '') == 'oracle_diagram' or getattr(f, 'at_start', False): f(self, st['ex'], dict(posted=True), 0.0, None, None, None)
 
         def eventFired(self, t, p, name, e):
             ex = st['ex']
@@ -555,7 +591,7 @@ def run_case(case):
                 p.perElementEventDistribution = dist
             p._perElementEvents = [(l, pr, wrap(f, locus=l), nm) for (l, pr, f, nm) in p._perElementEvents]
             p._perLocusEvents = [(l, pr, wrap(f, locus=l), nm) for (l, pr, f, nm) in p._perLocusEvents]
-        cfg = [f"NINST {max(1, len(ex.cms))} " + ' '.join('1' if p.instanceName() is not None else '0' for p in ex.cms)]
+        cfg = [f"NINST {len(ex.cms)} " + ' '.join('1' if p.instanceName() is not None else '0' for p in ex.cms)]
         for l in ex.loci: cfg.append(ex.locus_line(l))
         for p in ex.cms:
             i = ex.inst[id(p)]; ci = ex.cidx[id(p)]
@@ -563,8 +599,10 @@ def run_case(case):
                 if c in ci:
                     cfg.append(f"EFFECT {i} {ci[c]} {','.join(str(ex.lidx[id(h[0].__self__)]) for h in hs)}")
         per = []; fix = []
+        varat = {}
         for p in ex.leaves:
             for (l, pr, f, nm) in p._perElementEvents: per.append(f"PEREL {ex.lidx[id(l)]} {fb(pr)} {ex.hid(f)}")
+            varat[id(p)] = len(per)
         for p in ex.leaves:
             for (l, pr, f, nm) in p._perLocusEvents: fix.append(f"FIXED {ex.lidx[id(l)]} {fb(pr)} {ex.hid(f)}")
         # set-up steps in the order the real code performs them: every build, then every setUp
@@ -578,16 +616,18 @@ def run_case(case):
                 i = ex.inst[id(p)]; ci = ex.cidx[id(p)]
                 setup.append(f"S_INITC {i} " + ' '.join(f"{ci[c]}:{fb(pp)}" for c, pp in p._compartments.items()))
                 if isinstance(p, SIR_FixedRecovery):
-                    setup.append(f"S_POSTC {i} {ci[p.INFECTED]} {fb(params[p.T_INFECTED])} {ex.hid(p.remove)}")
+                    setup.append(f"S_POSTC {i} {ci[p.INFECTED]} {fb(p._tInfected)} {ex.hid(p.remove)}")
                 if isinstance(p, SIS_FixedRecovery):
-                    setup.append(f"S_POSTC {i} {ci[p.INFECTED]} {fb(params[p.T_INFECTED])} {ex.hid(p.recover)}")
+                    setup.append(f"S_POSTC {i} {ci[p.INFECTED]} {fb(p._tInfected)} {ex.hid(p.recover)}")
                 if isinstance(p, SIR_VariableInfection):
                     setup.append("S_INFV")
-                    cfg.append(f"VARINF {ex.lidx[id(p.locus(p.SI))]} {ex.hid(p.infect)}")
+                    cfg.append(f"VARINF {ex.lidx[id(p.locus(p.SI))]} {ex.hid(p.infect)} {varat[id(p)]}")
                 if isinstance(p, ScriptProc):
                     ids = [ex.hnames.index(p.hf[h].qn) for h in range(len(p.hf))]
                     for (t, e, h) in p.spec['posts']:
                         a, b = elem_pair(e); setup.append(f"S_POST {fb(t)} {a} {b} {ids[h]}")
+        for p in ex.leaves:
+            if isinstance(p, AddDelete): setup.append(f"S_ALLNODES {ex.lidx[id(p.locus(AddDelete.NODES))]}")
         eq = []
         for p in ex.leaves:
             if type(p).__name__ == 'NetworkStatistics':
@@ -625,7 +665,7 @@ def run_case(case):
             late = [(tt, j) for j, (tt, _) in ref.items() if tt < md[Dynamics.TIME]]
             if late: qviol(f"run ended at {md[Dynamics.TIME]} with event id {min(late)[1]} still pending for {min(late)[0]}")
         if case['dyn'] == 'syn': check_skipped()
-        case['_sizes'] = st.get('sizes', [])
+        case['_sizes'] = st.get('sizes', []); case.setdefault('procs_json', [])
         for f in case.get('finals', ()):
             r = f(d, st['ex'], res, md, case)
             if r: info['oracle'].append((f.__name__.replace('final_', ''), r))
@@ -636,6 +676,8 @@ def run_case(case):
     except Exception as ex_:
         info['exc'] = f"{type(ex_).__name__}: {ex_}"
         exp.append(f"EXC {type(ex_).__name__}")
+        if isinstance(ex_, KeyError) and any(getattr(o, '__name__', '') == 'oracle_compose' for o in case.get('oracles', ())):
+            info['oracle'].append(('compose', f"KeyError {ex_} although every parameter is supplied under the instance's decorated name or the shared name"))
     g0 = Gen(case['nodes'], case['edges'])._generate({})
     inp = ["RESET", "NODES " + ' '.join(map(str, g0.nodes()))]
     for u in g0.nodes(): inp.append(f"ADJ {u} " + ' '.join(map(str, g0.adj[u])))
